@@ -9,8 +9,8 @@ CHECK = {
                   "4x2x1 and 4x1x1 grids is advanced by one step for gamma in {1.0001, 1.4, 5/3, 2}, dt in {0.1, 0.5, 1} x "
                   "the code's own stability limit, subgrid layouts with 1 or 2 subgrids per axis, the 8 periodic/reflective "
                   "boundary mixes plus one open mix, and cell aspects 1:1:1 and 1:2:4. 4x1x1: all 8^4 assignments; 8-cell "
-                  "grids: one assignment per translation orbit, thorough all six states on 4x2x1 (210 456) and five "
-                  "(without -x) on 2x2x2 (~49 k), quick three-state sub-alphabets (891 / 834). The step runs through "
+                  "grids: one assignment per translation orbit, thorough five of the six states each (2x2x2 without -x, 4x2x1 "
+                  "without hot thin; ~49 k assignments each), quick three-state sub-alphabets (891 / 834). The step runs through "
                   "make_hydro_tasks, set_dependencies, reset_hydro_tasks and execute_task of the real code in four "
                   "different dependency respecting sequential orders. The schedule dimension (thread interleavings of "
                   "the real loop) is not part of this harness; it is explored by the scheduler engine with the "
